@@ -30,7 +30,7 @@ META = {
     },
     "exhaustive": {"quick": False, "thorough": False},
     "assumptions": ["relations are metamorphic: they do not need an oracle for the optimum itself (C01-C03 provide that on small inputs)", "cost vectors inside the coherent region before and after each change"],
-    "timeout": {"quick": 900, "thorough": 7200},
+    "timeout": {"quick": 420, "thorough": 7200},
 }
 
 ALGOS = ["thl", "ext_spfs", "superdtl", "thl", "ext_spfs", "superdtl", "base_spfs", "base_uspfs"]
